@@ -49,7 +49,7 @@ def make_case(sc):
 
 def suite_serve(tier, stream=STREAM, chk=CHK, multi_bias=0.5):
     r = common.rng(stream)
-    per = 40 if tier == "quick" else 500
+    per = 100 if tier == "quick" else 800
     cases, broken = [], []
     for fe, fr in L.COMBOS:
         for _ in range(per):
@@ -139,7 +139,7 @@ def e2e_one(sc):
 
 def e2e_scenarios(tier):
     r = common.rng("C09.e2e")
-    n = 60 if tier == "quick" else 600
+    n = 100 if tier == "quick" else 800
     out = []
     for fe, fr in [("sync_tcp", "socket"), ("aio_tcp", "socket"), ("tw_tcp", "socket"), ("sync_serial", "rtu")]:
         for _ in range(n):
